@@ -45,6 +45,11 @@ def cases(tier, seed):
     for i, (cat, name) in enumerate(shaped if tier == 'thorough' else shaped[:3]):
         t = {c_: [n for n in pools[c_] if not gen.is_terrapin_shape(n)][i] for c_ in pools}
         cs.append({'kind': 'targets', 'targets': t, 'unknown_cat': cat, 'unknown_name': name, 'seed': rng.randrange(1 << 30)})
+    # table names wrapped in white space (a peer that joins its list with ", "): other names than the table's, i.e. unknown ones, in every view
+    wrapped = [('enc', ' aes128-ctr'), ('mac', 'hmac-sha2-256 '), ('kex', '\tcurve25519-sha256'), ('key', ' ssh-ed25519 '), ('enc', ' aes256-gcm@openssh.com'), ('mac', ' hmac-sha2-512-etm@openssh.com')]
+    for i, (cat, name) in enumerate(wrapped if tier == 'thorough' else [wrapped[(seed + j) % len(wrapped)] for j in (0, 3)]):
+        t = {c_: [n for n in pools[c_] if not gen.is_terrapin_shape(n) and n != name.strip()][i + 9] for c_ in pools}
+        cs.append({'kind': 'targets', 'targets': t, 'unknown_cat': cat, 'unknown_name': name, 'seed': rng.randrange(1 << 30)})
     # a Terrapin-sensitive cipher without the strict-kex marker anywhere, and beside it - in every other context - an unknown name that merely looks like the marker: an unrelated neighbour, not part of the documented context
     for i, la in enumerate(['kex-strict-%-v01@openssh.com', 'kex-strict-%-v0@openssh.com', 'kex-strict-%-v00@openssh.com.', 'KEX-STRICT-%-V00@openssh.com'] if tier == 'thorough' else ['kex-strict-%-v01@openssh.com', 'kex-strict-%-v' + '%02d' % (2 + seed % 90) + '@openssh.com']):
         t = {c_: [n for n in pools[c_] if not gen.is_terrapin_shape(n)][i + 5] for c_ in pools}
@@ -128,7 +133,7 @@ def run_case(c):
         targets[unknown_cat] = c.get('unknown_name') or audit.unknown_name(rng)
     pin_marker = any(gen.is_terrapin_shape(targets[cat]) for cat in ('enc', 'mac')) and not c.get('unknown_name') and not c.get('lookalike')
     exposing = {'enc': ['hmac-sha2-256-etm@openssh.com'], 'mac': ['aes128-cbc']} if c.get('unknown_name') else None
-    neigh = {cat: [n for n in names[cat] if not n.endswith('-*') and n != targets[cat] and not gen.is_terrapin_shape(n) and n not in (MARK_S, MARK_C)] for cat in ('kex', 'key', 'enc', 'mac')}
+    neigh = {cat: [n for n in names[cat] if not n.endswith('-*') and n != targets[cat] and n != targets[cat].strip() and not gen.is_terrapin_shape(n) and n not in (MARK_S, MARK_C)] for cat in ('kex', 'key', 'enc', 'mac')}
     obs = {cat: [] for cat in targets}   # (context label, canon notes | 'unknown' marker)
     counters = {'observations': 0, 'json_views': 0, 'client_views': 0, 'lookup_views': 0}
     viol = []
@@ -185,7 +190,7 @@ def run_case(c):
         else:
             rep = report.parse_text(r.out, verbose=(fmt == 'verbose'))
             for cat in targets:
-                ent = [a for a in rep.algs[cat] if a.name == targets[cat]]
+                ent = [a for a in rep.algs[cat] if a.name in (targets[cat], targets[cat].strip())]   # (the text parser drops surrounding white space; the bare name is not among the neighbours)
                 if not ent:
                     viol.append(_v('C03/target-missing:text', 'target name absent from text report', cat=cat, name=targets[cat]))
                     continue
@@ -197,13 +202,13 @@ def run_case(c):
     rep = report.parse_text(r.out)
     unknown_section = r.out.split('# unknown algorithms')[1].split('#')[0] if '# unknown algorithms' in r.out else ''
     for cat in targets:
-        ent = [a for a in rep.algs[cat] if a.name == targets[cat]]
+        ent = [a for a in rep.algs[cat] if a.name in (targets[cat], targets[cat].strip())]
         if ent and c.get('lookalike') and cat == 'enc':
             pass   # --lookup has no peer and so no Terrapin context; the audits here deliberately run without the marker
         elif ent:
             obs[cat].append(('lookup', canon(ent[0].notes)))
             counters['observations'] += 1
-        elif targets[cat] in unknown_section.split():
+        elif targets[cat].strip() in unknown_section.split():
             obs[cat].append(('lookup', {'fail': ['<listed under unknown algorithms>'], 'warn': [], 'info': []}))
             counters['observations'] += 1
         else:
